@@ -69,6 +69,53 @@ fn long_record(tid: u64, seq: u64) -> String {
     format!("<{tid}:{seq}:L\n{tail}:{:08x}>", mix(tid * 1_000_003 + seq) & 0xffff_ffff)
 }
 
+/// Keep in sync with vlib/c19.py::expected_record (long formatted form).
+fn long_fmt_record(tid: u64, seq: u64) -> (String, String, String) {
+    let unit = format!("f{tid:x}q{seq:x}.");
+    let mut body = String::new();
+    while body.len() < 12000 {
+        body.push_str(&unit);
+    }
+    body.truncate(12000);
+    (format!("<{tid}:{seq}:F"), body, format!(":{:08x}>", mix(tid * 1_000_003 + seq) & 0xffff_ffff))
+}
+
+/// First use of the global choice: readers call `global()` for the first time in this process while one writer
+/// stores a value.  Prints the values read and the value held after everybody has finished.
+fn first_mode(readers: u64, delay: u64) {
+    // spin rendezvous (a futex barrier wakes its waiters microseconds apart, far wider than the window of interest)
+    static ARRIVED: AtomicU64 = AtomicU64::new(0);
+    let n = readers + 1;
+    let rendezvous = move || {
+        ARRIVED.fetch_add(1, Ordering::SeqCst);
+        while ARRIVED.load(Ordering::SeqCst) < n {
+            std::hint::spin_loop();
+        }
+    };
+    let w = std::thread::spawn(move || {
+        rendezvous();
+        for _ in 0..delay {
+            std::hint::spin_loop();
+        }
+        colorchoice::ColorChoice::Never.write_global();
+    });
+    let rs: Vec<_> = (0..readers)
+        .map(|i| {
+            std::thread::spawn(move || {
+                rendezvous();
+                for _ in 0..(i * 3) {
+                    std::hint::spin_loop();
+                }
+                code(colorchoice::ColorChoice::global())
+            })
+        })
+        .collect();
+    w.join().expect("writer");
+    let reads: Vec<u8> = rs.into_iter().map(|h| h.join().expect("reader")).collect();
+    let fin = code(colorchoice::ColorChoice::global());
+    println!("{} {}", reads.iter().map(|r| r.to_string()).collect::<Vec<_>>().join(","), fin);
+}
+
 fn print_mode(threads: u64, per: u64, seed: u64) {
     let barrier = Arc::new(Barrier::new(threads as usize));
     let hs: Vec<_> = (0..threads)
@@ -85,7 +132,15 @@ fn print_mode(threads: u64, per: u64, seed: u64) {
                         1 => anstream::println!("{s0}{s1}{s2}{s3}{s4}"),
                         2 => anstream::eprintln!("{s0}{s1}{s2}{s3}{s4}"),
                         3 => {
-                            let _ = write!(anstream::stdout(), "{s0}{s1}{s2}{s3}{s4}\n");
+                            if seq % 64 == 3 {
+                                // a formatted record far larger than any internal buffer (12 000-byte body in three
+                                // dawdling fragments): still one write_fmt call, still one lock acquisition
+                                let (h, b, t) = long_fmt_record(tid, seq);
+                                let (b0, b1, b2) = (Slow(&b[..4000], d), Slow(&b[4000..8000], d >> 8), Slow(&b[8000..], d >> 16));
+                                let _ = write!(anstream::stdout(), "{h}{b0}{b1}{b2}{t}\n");
+                            } else {
+                                let _ = write!(anstream::stdout(), "{s0}{s1}{s2}{s3}{s4}\n");
+                            }
                         }
                         4 => {
                             // every fourth of these is a long record: a header line followed by a 1500-byte tail without a
@@ -208,6 +263,7 @@ fn main() {
     match a.get(1).map(|s| s.as_str()) {
         Some("print") => print_mode(n(2, 4), n(3, 100), n(4, 1)),
         Some("register") => register_mode(n(2, 2), n(3, 2), n(4, 100), n(5, 1)),
+        Some("first") => first_mode(n(2, 6), n(3, 0)),
         Some("canary-race") => canary_race(),
         _ => {
             eprintln!("usage: vh-mt print|register|canary-race ...");
